@@ -150,6 +150,13 @@ class C08(EngineProp):
         for _ in range(40 if tier == 'quick' else 1000):
             out.append({'role': 'client', 'profile': 'lease', 'kind': 'lease', 'kinds': [rng.choice(['stream', 'channel', 'rr']) for _ in range(rng.randint(1, 3))],
                         'acts': [rng.choice(['request_n', 'cancel', 'none']) for _ in range(3)], 'lease_first': rng.random() < 0.3})
+        # reconnects: a new connection carries only streams it opened itself; what is left over from the previous connection (publishers of
+        # its channels, its requesters) must have been shut down and must not emit frames with the old stream ids on the new connection
+        for _ in range(60 if tier == 'quick' else 1500):
+            out.append({'role': 'client', 'profile': 'reconnect', 'kind': 'reconnect',
+                        'open': [rng.choice(['channel', 'channel', 'stream', 'rr']) for _ in range(rng.randint(1, 3))],
+                        'credit': rng.choice([0, 3, 2 ** 31 - 1]), 'cause': rng.choice(['eof', 'error', 'healthy']), 'via': rng.choice([None, 'plain', 'suspend']),
+                        'late': [rng.choice(['next', 'complete', 'error', 'next2', 'none']) for _ in range(3)], 'new_requests': rng.randint(0, 2), 'rounds': rng.randint(1, 2)})
         return out
 
     def run_impl(self, case):
@@ -159,7 +166,113 @@ class C08(EngineProp):
         if case.get('kind') == 'lease':
             from harness import detloop
             return detloop.run(self._lease, case)
+        if case.get('kind') == 'reconnect':
+            from harness import detloop
+            return detloop.run(self._reconnect, case)
         return super().run_impl(case)
+
+    async def _reconnect(self, loop, case):
+        import asyncio
+        from harness import clientrun, simnet
+        from harness.engine import frame_token
+        from rsocket.payload import Payload
+        from rsocket import frame as F
+        from rsocket.exceptions import RSocketTransportError
+        R = clientrun.ClientRun(loop, n_transports=case['rounds'] + 1, ka_ms=10_000_000, life_ms=100_000_000)
+        c = R.build()
+        await c.connect()
+        await loop.settle()
+
+        class S:
+            def on_subscribe(self, s): pass
+            def on_next(self, v, is_complete=False): pass
+            def on_complete(self): pass
+            def on_error(self, e): pass
+
+        class Pub:
+            """a legal publisher: emits only within the credit it was given and never after cancel()"""
+            def __init__(self):
+                self.subscriber, self.cancelled, self.credit, self.done = None, False, 0, False
+
+            def subscribe(self, subscriber):
+                self.subscriber = subscriber
+                pub = self
+
+                class Sn:
+                    def request(self, n): pub.credit += n
+                    def cancel(self): pub.cancelled = True
+                subscriber.on_subscribe(Sn())
+
+            def act(self, a, tag):
+                if self.cancelled or self.done or self.subscriber is None:
+                    return
+                if a in ('next', 'next2'):
+                    for i in range(2 if a == 'next2' else 1):
+                        if self.credit > 0:
+                            self.credit -= 1
+                            self.subscriber.on_next(Payload(b'late%d' % tag))
+                elif a == 'complete':
+                    self.done = True
+                    self.subscriber.on_complete()
+                elif a == 'error':
+                    self.done = True
+                    self.subscriber.on_error(RuntimeError('late'))
+        pubs = []
+        for rnd in range(case['rounds']):
+            t = R.transports[rnd]
+            n0 = len(t.sent)
+            for k in case['open']:
+                if k == 'channel':
+                    p = Pub()
+                    pubs.append(p)
+                    c.request_channel(Payload(b'c'), publisher=p).subscribe(S())
+                elif k == 'stream':
+                    c.request_stream(Payload(b's')).subscribe(S())
+                else:
+                    c.request_response(Payload(b'r'))
+            await loop.settle()
+            if case['credit']:
+                for e in list(t.sent[n0:]):
+                    if isinstance(e[2], F.RequestChannelFrame):
+                        fr = F.RequestNFrame()
+                        fr.stream_id, fr.request_n = e[2].stream_id, case['credit']
+                        t.deliver(fr.serialize())
+                await loop.settle()
+            via = case['via'] if case['cause'] in ('eof', 'error') else None
+            if via:
+                R.reconnect_in_on_close = True
+                R.on_close_sleep_ms = 50 if via == 'suspend' else 0
+            nconnects = R.log.count('C')
+            if case['cause'] == 'eof':
+                t.deliver(simnet.EOF_MARK)
+                await loop.settle()
+            elif case['cause'] == 'error':
+                t.deliver(RSocketTransportError())
+                await loop.settle()
+            if via:
+                R.reconnect_in_on_close = False
+            else:
+                await c.reconnect()
+            for _ in range(200):
+                await asyncio.sleep(0)
+                if R.log.count('C') > nconnects:
+                    break
+            await loop.settle()
+            await loop.advance(100)
+            # what the previous connection left behind acts now, on the new connection
+            for i, p in enumerate(pubs):
+                p.act(case['late'][i % len(case['late'])], i)
+            await loop.settle()
+            for i in range(case['new_requests']):
+                c.request_response(Payload(b'n%d' % i))
+            await loop.settle()
+        conns = [[frame_token(e[2]) for e in t.sent if not e[1].startswith('SETUP')] for t in R.transports]
+        try:
+            await c.close()
+        except Exception:
+            pass
+        return {'steps': [['CONNECTION-%d' % i, toks] for i, toks in enumerate(conns)], 'final': {'table': [], 'cache': []}, 'script': [], 'extra': None, 'kinds': [], 'sids': [],
+                'pubs_cancelled': [p.cancelled for p in pubs]}
 
     async def _lease(self, loop, case):
         from harness import clientrun
@@ -214,12 +327,12 @@ class C08(EngineProp):
         return {'steps': [['LEASE-SCENARIO', toks]], 'final': {'table': [], 'cache': []}, 'script': [], 'extra': None, 'kinds': [], 'sids': []}
 
     def model_lines(self, case, obs):
-        if case.get('kind') in ('lease', 'setup-order'):
+        if case.get('kind') in ('lease', 'setup-order', 'reconnect'):
             return []
         return super().model_lines(case, obs)
 
     def compare(self, case, obs, answers):
-        if case.get('kind') in ('lease', 'setup-order'):
+        if case.get('kind') in ('lease', 'setup-order', 'reconnect'):
             return None
         return super().compare(case, obs, answers)
 
@@ -231,17 +344,34 @@ class C08(EngineProp):
                 if len(case['kinds']) > 1:
                     yield dict(case, kinds=case['kinds'][:i] + case['kinds'][i + 1:], acts=case['acts'][:i] + case['acts'][i + 1:] + ['none'])
             return
+        if case.get('kind') == 'reconnect':
+            if case['rounds'] > 1:
+                yield dict(case, rounds=1)
+            if case['new_requests']:
+                yield dict(case, new_requests=0)
+            for i in range(len(case['open'])):
+                if len(case['open']) > 1:
+                    yield dict(case, open=case['open'][:i] + case['open'][i + 1:])
+            return
         yield from super().shrink_candidates(case)
 
     def nontrivial(self, case, obs):
         if case.get('kind') == 'setup-order':
             import json
             return json.dumps(case['c16'], sort_keys=True)
+        if case.get('kind') in ('lease', 'reconnect'):
+            import json
+            return json.dumps(case, sort_keys=True) if any(toks for _, toks in obs['steps']) else None
         return super().nontrivial(case, obs)
 
     def stats(self, case, obs):
         if case.get('kind') == 'setup-order':
             yield 'kind=setup-order'
+            return
+        if case.get('kind') == 'reconnect':
+            yield 'kind=reconnect'
+            yield 'reconnect-cause=%s via=%s' % (case['cause'], case['via'])
+            yield 'late-frames-on-new-connection=%d' % sum(1 for m, toks in obs['steps'][1:] for t in toks if not t.split(':')[2] == '0')
             return
         yield from super().stats(case, obs)
 
@@ -252,7 +382,14 @@ class C08(EngineProp):
         parity = 0 if case['role'] == 'server' else 1
         seen = set()
         fails = []
-        found = monitor(obs, parity)
+        if case.get('kind') == 'reconnect':
+            # every connection is judged on its own: stream ids mean nothing across connections
+            found = []
+            for marker, toks in obs['steps']:
+                found += [(sig.replace('frame-on-unopened-stream:', 'frame-of-previous-connection-on-new-connection:') if marker != 'CONNECTION-0' else sig, what)
+                          for sig, what in monitor({'steps': [[marker, toks]]}, parity)]
+        else:
+            found = monitor(obs, parity)
         if obs.get('final') and obs['final'].get('wire') is not None and case.get('kind') != 'lease':
             chans = {s for k, s in zip(obs.get('kinds', []), obs.get('sids', [])) if k in ('chReq', 'chResp')}
             found = found + wire_monitor(obs['final']['wire'], parity, chans)
@@ -266,5 +403,6 @@ class C08(EngineProp):
 
 
 C08.rule = ('as C07 (protocol-legal peer, legal application, races, loss); every frame the endpoint queues is judged by a per-stream monitor against the endpoint\'s own '
-            'earlier sends and receptions on that stream')
+            'earlier sends and receptions on that stream; plus client scenarios: requests and lease grants issued while connecting (SETUP first, once), lease-held requests with request(n)/cancel() before the LEASE, '
+            'and reconnects (server EOF / transport error / healthy; reconnect() from the harness or from inside on_close) with channels, streams and request-responses open whose publishers, if the library did not cancel them, emit on the new connection: each connection is judged on its own')
 PROP = C08()
